@@ -186,6 +186,8 @@ BOUNDS = {
                 'Ratios n = 7 and n > 8, three or more distinct values outside the listed alphabets in one sequence, and stalls '
                 'longer than 8 bit periods are out of bound',
 }
+for k in ('quick', 'thorough'):
+    BOUNDS[k] += '; also directed runs with the ratio given by real frequencies, odd ratios 5..33 and non-integer ratios'
 ASSUMPTIONS.append(
     'thorough tier only: the deserializer v wire is dropped from the state key while d_valid = 0, the deserializer hand-off FSM is '
     'idle (state_v = 0) and the monitor has no byte pending.  Argument: v has no reader inside the system (its only sink is the '
